@@ -28,6 +28,7 @@ import (
 //	R-pending-pair  (shared with C05) pending entries are removed on every path from registration to exit
 //	R-queue-answered  (shared with C03) on queue-answering transports every path after the dispatch enqueues a frame
 //	R-pending-key   (shared with C05) pending keys come from a counter living in the object that holds the table
+//	R-id-presence   (shared with C15) servers classify a message by the presence of its id, never by its value
 func init() { Registry["C01"] = checkC01 }
 
 func isRespType(t types.Type) string {
@@ -233,6 +234,7 @@ func checkC01(c *Ctx) {
 	// "for every answer size": no reader of a peer's stream has a line limit an ordinary answer exceeds
 	scannersBounded(c, c.P.LibFns, "R-bounded-scanner")
 	c03QueueAnswered(c)
+	c15IDPresence(c) // a request whose id is taken for absent is never answered
 	c05Pending(c)
 	c05PendingKey(c)
 	// the call's outcome is the server's answer, not what a notification handler returned (shared with C10)
@@ -505,30 +507,79 @@ func frameIsResponse(v ssa.Value, d int) bool {
 // ---------------------------------------------------------------- R-fresh-buffer
 func c01FreshBuffer(c *Ctx) {
 	n := 0
+	isDecode := func(call *ssa.Call) bool {
+		nm := ir.CallName(call)
+		return nm == "(*encoding/json.Decoder).Decode" || nm == "encoding/json.Unmarshal"
+	}
+	// library helpers that decode into a target their caller supplies: parameter index of the target
+	fwd := map[*ssa.Function]int{}
 	for _, fn := range c.P.LibFns {
 		ir.EachInstr(fn, func(_ *ssa.BasicBlock, _ int, in ssa.Instruction) {
 			call, ok := in.(*ssa.Call)
-			if !ok {
+			if !ok || !isDecode(call) {
 				return
 			}
-			nm := ir.CallName(call)
-			if nm != "(*encoding/json.Decoder).Decode" && nm != "encoding/json.Unmarshal" {
+			if p, ok := ir.Unwrap(call.Call.Args[len(call.Call.Args)-1]).(*ssa.Parameter); ok {
+				for i, q := range fn.Params {
+					if q == p {
+						fwd[fn] = i
+					}
+				}
+			}
+		})
+	}
+	// holdsRaw: the type keeps undecoded bytes (json.RawMessage / []byte) that UnmarshalJSON writes in place
+	var holdsRaw func(t types.Type, d int) bool
+	holdsRaw = func(t types.Type, d int) bool {
+		if d > 4 {
+			return false
+		}
+		if ir.TypeStr(t) == "encoding/json.RawMessage" {
+			return true
+		}
+		switch u := t.Underlying().(type) {
+		case *types.Pointer:
+			return holdsRaw(u.Elem(), d+1)
+		case *types.Slice:
+			if b, ok := u.Elem().Underlying().(*types.Basic); ok && b.Kind() == types.Uint8 {
+				return true
+			}
+		case *types.Struct:
+			for i := 0; i < u.NumFields(); i++ {
+				if holdsRaw(u.Field(i).Type(), d+1) {
+					return true
+				}
+			}
+		}
+		return false
+	}
+	for _, fn := range c.P.LibFns {
+		ir.EachInstr(fn, func(_ *ssa.BasicBlock, _ int, in ssa.Instruction) {
+			call, ok := in.(*ssa.Call)
+			if !ok || !flow.InCycle(call.Block()) {
 				return
 			}
-			if !flow.InCycle(call.Block()) {
-				return
+			var tgt ssa.Value
+			if isDecode(call) {
+				tgt = ir.Unwrap(call.Call.Args[len(call.Call.Args)-1])
+			} else if sc := ir.StaticCallee(call); sc != nil {
+				if i, ok := fwd[sc]; ok && i < len(call.Call.Args) {
+					tgt = ir.Unwrap(call.Call.Args[i])
+				}
 			}
-			tgt := ir.Unwrap(call.Call.Args[len(call.Call.Args)-1])
 			al, ok := tgt.(*ssa.Alloc)
 			if !ok {
 				return
 			}
-			if ir.TypeStr(al.Type()) != "*encoding/json.RawMessage" {
+			pt, ok := al.Type().Underlying().(*types.Pointer)
+			if !ok || !holdsRaw(pt.Elem(), 0) {
 				return
 			}
 			n++
-			c.R.Check(flow.InCycle(al.Block()), "R-fresh-buffer", "decode buffer in "+fname(fn), c.Pos(call.Pos()), "the raw-message buffer is created per iteration",
-				sprintf("%s decodes every message of its loop into one json.RawMessage declared outside the loop: RawMessage.UnmarshalJSON reuses the backing array, so a message handed to another goroutine (e.g. an error answer waiting for its caller) is overwritten by the next one — the caller receives another call's answer", fname(fn)))
+			// created per iteration: the allocation lies on a cycle together with the decode
+			fresh := flow.InCycle(al.Block()) && sameLoop(al.Block(), call.Block())
+			c.R.Check(fresh, "R-fresh-buffer", "decode buffer in "+fname(fn), c.Pos(call.Pos()), "the buffer holding undecoded bytes is created per iteration",
+				sprintf("%s decodes every message of its loop into one value declared outside the loop that keeps raw bytes (json.RawMessage): RawMessage.UnmarshalJSON reuses the backing array, so bytes handed on from one iteration (an answer waiting for its caller, a tool's raw schema already put into the result) are overwritten by the next message — the receiver reads another message's bytes", fname(fn)))
 		})
 	}
 	c.R.Min("R-fresh-buffer", 1)
